@@ -12,6 +12,8 @@ import wave
 from fractions import Fraction
 
 from auditok.exceptions import AudioIOError
+
+from ..gen import audio as A
 from auditok.io import BufferAudioSource, RawAudioSource, StdinAudioSource, WaveAudioSource
 
 ID = "C11"
@@ -424,7 +426,8 @@ def run_shard(ctx):
             channels = rng.choice((1, 2, 3))
             rate = rng.choice((4, 10, 16, 1000, 8000, 44100))
             n = rng.choice((0, 1, 2, rng.randint(0, 12), rng.randint(0, 40)))
-            data = rng.randbytes(n * width * channels)
+            data = A.random_bytes(rng, n, width, channels)
+            n = len(data) // (width * channels)
             ops = random_ops(rng, n, rate)
             # the same history on every kind, in lock-step on the same audio
             for kind in ("buffer", "raw", "wav", "stdin", "stdin_file"):
